@@ -10,18 +10,27 @@ COMMON_NOTE = (
     'numpy/pandas/scipy/tomlkit/pickle, the C++ engine cythonbiogeme and IEEE rounding are modelled or trusted, not verified (DESIGN.md §7).'
 )
 
-CHECKS = {
-    'C15': dict(
-        text='Proof (Lean 4): for every history of evaluations the iteration file holds the best evaluated point with finite gradient '
-        '(invariant by induction, C15.file_is_best / every_prefix_is_best / never_below_start); re-reading a rendered line returns name and value '
-        '(C15.parse_render, names may contain "="); restart overrides exactly the saved names; the write protocol tmp-then-rename is safe at every crash point '
-        '(C15.crash_safe, all k, all chunk lists). Tie: correspondence on real BIOGEME objects (file read after every call, real restart, recorded write protocol '
-        'compared with the model protocol, every crash point injected for real).',
-        design='DESIGN.md §5 C15',
-        technique='Lean 4 theorems over an executable state-machine model + differential correspondence with real BIOGEME runs and crash injection',
-        note='Partial: CPython float repr/parse round trip and OS rename atomicity are trusted; f and the finite-gradient flag come from the engine.',
-    ),
-}
+import importlib
+import sys
+
+sys.path.insert(0, str(VERIF / 'harness'))
+
+
+def load_checks():
+    """every harness/props/cXX.py with READY = True and a MANIFEST dict is a claimed check"""
+    out = {}
+    for f in sorted((VERIF / 'harness' / 'props').glob('c[0-9]*.py')):
+        try:
+            m = importlib.import_module(f'props.{f.stem}')
+        except Exception as e:  # noqa: BLE001
+            print(f'skip {f.name}: {e}')
+            continue
+        if getattr(m, 'READY', False) and hasattr(m, 'MANIFEST'):
+            out[f.stem.upper()] = m.MANIFEST
+    return out
+
+
+CHECKS = load_checks()
 
 REASON_PENDING = 'check not built yet in this round (design in DESIGN.md §5); no claim is made'
 
